@@ -51,6 +51,10 @@ type faultSpec struct {
 	// C04APP: one crash plan per interrupted run (kind fs | net | any, n-th such operation of the receiver process)
 	CrashKind []string `json:"crash_kind,omitempty"`
 	CrashN    []int    `json:"crash_n,omitempty"`
+	// C04APP, in a quarter of the runs: the first interruption is the HOST being killed (a
+	// drawn time after the transfer began, over a slow link); the receiver fails; the user
+	// hosts the same tree again (new session, new code) and the receiver joins that one
+	HostKilledFirst bool `json:"host_killed_first,omitempty"`
 	// C02APP
 	Fault string `json:"fault,omitempty"` // blackhole | kill_host | quit_host | kill_receiver
 	AtMs  int    `json:"fault_ms_after_transfer_began,omitempty"`
@@ -73,6 +77,16 @@ func (h faultHarness) Gen(r *verifsim.SplitMix, tier string, idx int) any {
 		for i, n := 0, 1+r.Intn(2); i < n; i++ {
 			sp.CrashKind = append(sp.CrashKind, []string{"fs", "fs", "fs", "net", "any"}[r.Intn(5)])
 			sp.CrashN = append(sp.CrashN, 1+r.Intn(70))
+		}
+		if r.Chance(1, 4) {
+			sp.HostKilledFirst = true
+			sp.CrashKind, sp.CrashN = sp.CrashKind[:len(sp.CrashKind)-1], sp.CrashN[:len(sp.CrashN)-1]
+			sp.PktUs = []int{2000, 5000}[r.Intn(2)]
+			sp.AtMs = r.Intn(30) * 25
+			sp.Files = sp.Files[:0]
+			for i, n := 0, 1+r.Intn(2); i < n; i++ {
+				sp.Files = append(sp.Files, appFile{P: fmt.Sprintf("f%d.bin", i), N: []int{40 * sp.Chunk, 120 * sp.Chunk}[r.Intn(2)]})
+			}
 		}
 	default:
 		sp.Fault = []string{"blackhole", "blackhole", "kill_host", "quit_host", "kill_receiver", "kill_receiver"}[r.Intn(6)]
@@ -204,9 +218,10 @@ func (h faultHarness) Run(spec any) (res verifsim.RunResult) {
 			hx.port++
 			x := unet.NewSock(&net.UDPAddr{IP: hx.ip, Port: hx.port})
 			names := append([]string{"S"}, order...)
+			isHost := func(n string) bool { return strings.HasPrefix(n, "S") }
 			for _, n := range names {
 				hy := hosts[n]
-				if hy == hx || (hx.name != "S" && hy.name != "S") {
+				if hy == hx || isHost(hx.name) == isHost(hy.name) {
 					continue
 				}
 				for _, y := range hy.socks {
@@ -295,18 +310,24 @@ func (h faultHarness) Run(spec any) (res verifsim.RunResult) {
 		})
 		ctxS, cancelS := context.WithCancel(context.Background())
 		defer cancelS()
-		verifsim.Go("S", func() {
-			_ = app.RunSnapshotSender(ctxS, logger, app.SnapshotSenderConfig{
-				ServerURL: srvURL, Paths: []string{src}, MaxReceivers: 1, ReceiverTTL: 10 * time.Minute,
-				ParallelConnections: sp.Conns, StunServers: []string{"10.9.9.9:3478"},
-				TransferOpts: transfer.Options{ChunkSize: uint32(sp.Chunk), ParallelFiles: sp.Streams},
+		hostAs := func(node string) {
+			verifsim.Go(node, func() {
+				err := app.RunSnapshotSender(ctxS, logger, app.SnapshotSenderConfig{
+					ServerURL: srvURL, Paths: []string{src}, MaxReceivers: 1, ReceiverTTL: 10 * time.Minute,
+					ParallelConnections: sp.Conns, StunServers: []string{"10.9.9.9:3478"},
+					TransferOpts: transfer.Options{ChunkSize: uint32(sp.Chunk), ParallelFiles: sp.Streams},
+				})
+				if os.Getenv("VERIF_APP_DEBUG") != "" {
+					fmt.Fprintf(os.Stderr, "DEBUG host %s returned: %v\n", node, err)
+				}
 			})
-		})
+		}
+		hostAs("S")
 		getCode := func() string {
 			httpMu.Lock()
 			defer httpMu.Unlock()
 			b := httpBuf.String()
-			i := strings.Index(b, `"join_code":"`)
+			i := strings.LastIndex(b, `"join_code":"`)
 			if i < 0 {
 				return ""
 			}
@@ -326,9 +347,12 @@ func (h faultHarness) Run(spec any) (res verifsim.RunResult) {
 		join := func(node, dir string) context.CancelFunc {
 			ctxR, cancelR := context.WithCancel(context.Background())
 			verifsim.Go(node, func() {
-				_ = app.RunSnapshotReceiver(ctxR, logger, app.SnapshotReceiverConfig{
+				err := app.RunSnapshotReceiver(ctxR, logger, app.SnapshotReceiverConfig{
 					ServerURL: srvURL, JoinCode: joinCode, OutDir: dir, ParallelConnections: sp.Conns, StunServers: []string{"10.9.9.9:3478"},
 				})
+				if os.Getenv("VERIF_APP_DEBUG") != "" {
+					fmt.Fprintf(os.Stderr, "DEBUG receiver %s returned: %v\n", node, err)
+				}
 			})
 			return cancelR
 		}
@@ -344,11 +368,49 @@ func (h faultHarness) Run(spec any) (res verifsim.RunResult) {
 		}()
 		switch sp.Prop {
 		case "C04APP":
+			first := 0
+			if sp.HostKilledFirst {
+				// run 1 ends because the host dies
+				first = 1
+				cancels = append(cancels, join("R1", out))
+				w.run(func() bool {
+					ents, _ := os.ReadDir(out)
+					return len(ents) > 0 || gone("R1")
+				}, time.Minute)
+				if !gone("R1") {
+					w.run(func() bool { return gone("R1") }, time.Duration(sp.AtMs)*time.Millisecond)
+				}
+				hostKilled := false
+				if !gone("R1") {
+					hostKilled = true
+					w.s.Kill("S")
+					closeNode("S")
+				}
+				outcome = w.run(func() bool { return gone("R1") }, 4*time.Minute)
+				code, ex := w.s.Exited("R1")
+				mu.Lock()
+				ends = append(ends, procEnd{node: "R1", exited: ex, code: code, crashed: hostKilled, site: "host killed"})
+				mu.Unlock()
+				if !gone("R1") {
+					// a receiver that does not notice that its host is gone is C02's business; here
+					// the user gives up on it
+					w.s.Kill("R1")
+					closeNode("R1")
+				}
+				if hostKilled {
+					// the same tree is hosted again: new process, new session, new code
+					hostAs("S2")
+					old := joinCode
+					w.run(func() bool { c := getCode(); return c != "" && c != old }, 30*time.Second)
+					joinCode = getCode()
+					w.run(func() bool { return false }, 2*time.Second)
+				}
+			}
 			// interrupted runs, then a last one that nobody disturbs
-			for i := 0; i <= len(sp.CrashN); i++ {
+			for i := first; i <= first+len(sp.CrashN); i++ {
 				node := fmt.Sprintf("R%d", i+1)
-				if i < len(sp.CrashN) {
-					w.s.Crash = &verifsim.CrashPlan{Node: node, Kind: sp.CrashKind[i], N: sp.CrashN[i]}
+				if i-first < len(sp.CrashN) {
+					w.s.Crash = &verifsim.CrashPlan{Node: node, Kind: sp.CrashKind[i-first], N: sp.CrashN[i-first]}
 				} else {
 					w.s.Crash = nil
 				}
